@@ -30,7 +30,7 @@ type C03Op struct {
 	PDB  int    `json:"pdb,omitempty"`
 	Q    int    `json:"q,omitempty"`
 	O    int    `json:"o,omitempty"`
-	N    int    `json:"n,omitempty"` // grow: how many entries of DB to append
+	N    int    `json:"n,omitempty"`   // grow: how many entries of DB to append
 	Raw  bool   `json:"raw,omitempty"` // update / loadmon / grow: commands built in code, without the loader's lower-cased copies
 }
 
